@@ -1,6 +1,10 @@
 #!/bin/sh
-# usage: tools/try_mutant.sh <seeded dir name> <check ids...>  : apply to /repo, run checks, revert
+# usage: tools/try_mutant.sh <seeded dir name> <check ids...>
+# applies the seeded patch to a SCRATCH copy of /repo (outside /repo and /verif), runs the checks
+# against it (SYMMRAY_REPO), removes the copy.  /repo itself is never modified.
 D=/verif/seeded/$1; shift
-git -C /repo apply $D/patch.diff || exit 2
-for c in "$@"; do echo "== $c"; (cd /verif && ./check $c 2>&1 | grep -E "VIOLATION|KNOWN|Traceback|Error" | head -5; ); done
-git -C /repo checkout -- .
+M=/tmp/mrepo_$$
+rm -rf $M; mkdir -p $M; rsync -a --exclude .git /repo/ $M/
+(cd $M && patch -p1 -s < $D/patch.diff) || { echo "patch failed"; rm -rf $M; exit 2; }
+for c in "$@"; do echo "== $c"; (cd /verif && SYMMRAY_REPO=$M ./check $c 2>&1 | grep -E "VIOLATION|KNOWN|Traceback|Error" | head -5; ); done
+rm -rf $M
